@@ -82,7 +82,7 @@ def execute(case, script=None):
     ctx = RunCtx(PROP, view)
     ctx.W = game_W(view)
     ctx.declare_probes('episode_from_absorbing_start', 'bootstrap_from_absorbing', 'argmax_tie',
-                       'listener_reentry', 'step_size_one', 'learner_reused', 'no_seed_given', 'zero_episodes', 'rerun_after_abort', 'model_updated_in_place', 'nested_run')
+                       'listener_reentry', 'step_size_one', 'learner_reused', 'no_seed_given', 'zero_episodes', 'rerun_after_abort', 'model_updated_in_place', 'nested_run', 'first_result_checked_after_reuse')
     sched = make_scheduler(case, script, ctx)
     try:
         return _execute(td, view, cfg, ctx, sched)
@@ -283,11 +283,12 @@ def _execute(td, view, cfg, ctx, sched):
                 sview = MDPView(sib)
                 W0, ctx.W = ctx.W, game_W(sview)
                 _first = learner.train_on(make_mdp(sview, ctx, alias=cfg.get('alias', 'fresh')))
-                for _s in range(view.N):          # the first result is used before the object is used again
-                    try:
+                for _s in range(0, view.N, 2):    # the first result is used before the object is used again - at every other state;
+                    try:                          # the rest of its policy is looked at only after the second run (below)
                         _first.policy.action_dist(sk[_s])
                     except Exception:
                         pass
+                state['first'] = _first
                 ctx.W = W0
                 state['main'] = True
             hookN = None
@@ -368,6 +369,26 @@ def _execute(td, view, cfg, ctx, sched):
         sup = {a for a, p in d.items() if p > 0}
         ctx.check(any(sup == am and all(close(d[a], 1 / len(am)) for a in am) for am in ams), 'policy',
                   lambda: f"policy at state {s} is {d}, expected uniform over {[sorted(am) for am in ams]}")
+    # ---- two results alive: the FIRST result of a reused learner must still be greedy for its own Q-table after the
+    #      second run (its policy is evaluated lazily, state by state)
+    first = state.get('first')
+    if first is not None:
+        try:
+            got1 = {sid[s_]: {aid[a]: float(v) for a, v in av.items()} for s_, av in first.q_values.items()}
+        except (KeyError, TypeError, AttributeError) as e:
+            raise Violation('result-shape', f"first result's q_values malformed: {type(e).__name__}: {e}")
+        ctx.probe('first_result_checked_after_reuse')
+        for s_ in sorted(got1):
+            try:
+                d = {aid[a]: p for a, p in first.policy.action_dist(sk[s_]).items()}
+            except Exception as e:
+                raise Violation('policy', f"first result's policy undefined at state {s_} after the learner was used again: {type(e).__name__}: {e}")
+            m = max(got1[s_].values())
+            am = {a for a in got1[s_] if got1[s_][a] == m}
+            sup = {a for a, p in d.items() if p > 0}
+            ctx.check(sup == am and all(close(d[a], 1 / len(am)) for a in am), 'policy',
+                      lambda: f"after the learner object was trained again, its FIRST result's policy at state {s_} is {d}; that result's own Q-table {got1[s_]} makes it uniform over {sorted(am)}",
+                      key='policy/first-result-after-reuse')
     return ctx.result()
 
 
